@@ -163,6 +163,17 @@ func c18Queries(rng interface{ Intn(int) int }, c *corpus.Corpus) []*corpus.Q {
 		}
 	}
 	var qs []*corpus.Q
+	// type:repo next to a branch filter: the repository set of type:repo is decided over ALL documents of a
+	// repository, the branch filter only restricts which of its files are returned
+	for k := 0; k < 2; k++ {
+		br := &corpus.Q{T: "branchesrepos", BR: []corpus.BranchIDs{{Branch: branch(), IDs: ids(true)}}}
+		tr := &corpus.Q{T: "type", S: "repo", Sub: []*corpus.Q{content()}}
+		if k == 0 {
+			qs = append(qs, &corpus.Q{T: "and", Sub: []*corpus.Q{br, tr}})
+		} else {
+			qs = append(qs, &corpus.Q{T: "and", Sub: []*corpus.Q{tr, br, content()}})
+		}
+	}
 	for k := 0; k < 10; k++ {
 		f := filters()
 		switch rng.Intn(6) {
